@@ -486,6 +486,7 @@ func globalSplitCase(col *Collector, mask int, nDefs int, variant int) {
 	}
 	cs := Case{Tags: []string{"global-split", fmt.Sprintf("variant=%d", variant)}, NonTrivial: true, Replay: fmt.Sprintf("global-split defs=%d global-mask=%b variant=%d", nDefs, mask, variant)}
 	var got []string
+	var sections string
 	func() {
 		defer func() {
 			if pn := recover(); pn != nil {
@@ -505,17 +506,25 @@ func globalSplitCase(col *Collector, mask int, nDefs int, variant int) {
 			cs.Fail, cs.Sig = "load failed: "+err.Error(), "c17-global-load"
 			return
 		}
+		var st, sc, sv []string
 		for k := range cfg.Tasks {
 			got = append(got, k)
+			st = append(st, k)
 		}
 		for k := range cfg.Contexts {
 			got = append(got, k)
+			sc = append(sc, k)
 		}
 		for k, v := range cfg.Variables.Map() {
 			if strings.HasPrefix(k, "d") && v == "val-"+k {
 				got = append(got, k)
+				sv = append(sv, k)
 			}
 		}
+		sort.Strings(st)
+		sort.Strings(sc)
+		sort.Strings(sv)
+		sections = fmt.Sprintf("t=%s|c=%s|v=%s", strings.Join(st, ","), strings.Join(sc, ","), strings.Join(sv, ","))
 	}()
 	sort.Strings(got)
 	var want []string
@@ -530,6 +539,23 @@ func globalSplitCase(col *Collector, mask int, nDefs int, variant int) {
 	}
 	if cs.Fail == "" && strings.Join(got, ",") != strings.Join(want, ",") {
 		cs.Fail, cs.Sig = fmt.Sprintf("definitions available %v, expected the union %v of the global and the project file", got, want), "c17-global-union"
+	}
+	if cs.Fail == "" {
+		// the same, per section, against the model of the merge (Model/GlobalCfg.lean)
+		enc := func(d [3][]string) string {
+			var it []string
+			for k, pre := range []string{"t", "c", "v"} {
+				for _, n := range d[k] {
+					it = append(it, pre+":"+n)
+				}
+			}
+			if len(it) == 0 {
+				return "-"
+			}
+			return strings.Join(it, ",")
+		}
+		cs.Line = fmt.Sprintf("gsplit g=%s p=%s", enc(g), enc(p))
+		cs.Impl = sections
 	}
 	col.Add(cs)
 }
